@@ -247,7 +247,9 @@ BOUNDED = {'C12': [_sweep_c12]}
 LEVEL = {'C12': 'other'}
 EXPLANATION = {'C12': (
     'Proved for all importance values on the real parse_importance_cards (0-3 cards of every length pattern up to '
-    '3; maximum over particle types per rank, unequal lengths rejected). Bounded, exhaustive within the stated '
+    '3; maximum over particle types per rank, unequal lengths rejected), on parse_keywords (IMP keywords of a cell '
+    'card: maximum over the particle types, a BUT importance replaces; contracts in c15) and on the glue of '
+    'parse_one_cell_worker (keyword importance, otherwise the data cards by rank, otherwise an error). Bounded, exhaustive within the stated '
     'scopes: expand_data_card against a reference expansion, importance of a cell card (keywords vs data cards by '
     'rank). Bounded (deck sweeps): the set of VOLU ids, the end-of-run NOTE and the absence of any volume in the '
     'region of zero-importance cells, on generated flat and filled decks with importances on cards or on an IMP card.')}
